@@ -99,14 +99,6 @@ func verifTimeNow() (sec, nsec int64) { return verifClockSec, verifClockNsec }
 
 func Verif_C08_align() { verifAlign([]int{1, 60, 3600, 86400}[verifCase(4)]) }
 
-// the same for an arbitrary period in [1, maxPeriod]
-func Verif_C08_align_anyperiod() {
-	p := verifInt("period")
-	verifAssume(p >= 1)
-	verifAssume(p <= verifParam("maxPeriod"))
-	verifAlign(p)
-}
-
 func verifAlign(period int) {
 	verifResetEnv()
 	offset := verifInt("zoneOffset")
